@@ -1,5 +1,6 @@
 CONSTANTS
-  MaxOps = 12
+  MaxOps = 5
+  MaxReq = 3
   Free = FALSE
 SPECIFICATION Spec
 INVARIANT Emit
